@@ -479,6 +479,11 @@ fn run(case: &RtCase) -> Outcome {
                     }
                 }
                 if !lab.done(i) {
+                    if std::env::var("VERIF_DUMP_LOG").is_ok() {
+                        for (n, e) in HOOKS.lock().unwrap_or_else(|p| p.into_inner()).iter().enumerate() {
+                            eprintln!("  hook[{n}] {e:?}");
+                        }
+                    }
                     return Outcome::violation(
                         format!("C05/rt/cancel-not-prompt/{route}/{:?}/{drv}", spec.what),
                         format!(
@@ -794,7 +799,7 @@ fn run_c01(case: &RtCase) -> Outcome {
                 lab.handles.iter_mut().for_each(|h| {
                     // detach: dropping a handle after the runtime is gone must be harmless as well, keep half of them
                     if let Some(h) = h.take() {
-                        std::mem::forget(h.detach());
+                        h.detach();
                     }
                 });
                 lab.rt = None;
@@ -954,6 +959,26 @@ fn main() {
             },
         ),
     ];
+    // found by the thorough tier: compio-net marks the next accept poll-first after the socket was seen empty; a
+    // token that already fired then cancels it in the batch that carries it
+    let plain = |what: What| TaskSpec { what, stream: 0, cap: 0, route: Route::Plain, pers: 0 };
+    p.regressions.push((
+        "poll-first-accept-cancelled-in-its-own-batch",
+        RtCase {
+            iour: true,
+            cap_ix: 2,
+            interval_ix: 0,
+            tasks: vec![
+                plain(What::Accept),
+                plain(What::Read),
+                plain(What::Read),
+                plain(What::Read),
+                TaskSpec { what: What::Accept, stream: 18987, cap: 36250, route: Route::DropOn(0), pers: 1 },
+                TaskSpec { what: What::Accept, stream: 56197, cap: 12544, route: Route::Token(0), pers: 0 },
+            ],
+            steps: vec![RStep::Spawn, RStep::Step { block: false }, RStep::CancelToken(0), RStep::Connect, RStep::Connect, RStep::Step { block: false }],
+        },
+    ));
     s.run_part(p, strategy(), run);
     s.finish();
 }
